@@ -1443,6 +1443,10 @@ Qed.
 Corollary reachable_inv : forall ops, Inv (run all_fixed init ops).
 Proof. intros ops. apply trace_safe, init_inv. Qed.
 
+Definition only (f : nat) : fixes :=   (* every repair but one *)
+  mkFixes (negb (f =? 5)) (negb (f =? 6)) (negb (f =? 7)) (negb (f =? 8)) (negb (f =? 26))
+          (negb (f =? 70)) (negb (f =? 71)) (negb (f =? 72)).
+
 (* variants with the five crash / leak repairs: every operation is outside the defect classes *)
 Definition crash_fixed (fx : fixes) : Prop :=
   f05 fx = true /\ f06 fx = true /\ f07 fx = true /\ f08 fx = true /\ f70 fx = true.
@@ -1506,7 +1510,7 @@ Theorem serves_tree_request : forall s p nf id ver t,
   r_out r = Ok /\
   In (ESend p (if ver =? 0 then RTreeMarshal (t_id t) (ro_id (t_roster t)) (root_node t)
                else RRespTree (t_id t) (ro_id (t_roster t)) (root_node t))) (r_events r).
-Proof.
+Proof using HB HC.
   intros s p nf id ver t I Ht Hr. pose proof I as (Hl & Hi).
   edestruct (step_of_returns fx s (Recv p false nf (MReqTree id ver))) as (m' & E & Hx & Hq); [exact I| |].
   { cbn [run_op process touches]. apply handle_request_tree_returns; [exact Hl|reflexivity]. }
@@ -1518,7 +1522,7 @@ Theorem serves_roster_request : forall s p nf rid i t,
   Inv s -> In (i, Have t) (store s) -> ro_id (t_roster t) = rid -> reachable p = true ->
   let r := step fx s (Recv p false nf (MReqRoster rid)) in
   r_out r = Ok /\ In (ESend p (RRoster rid)) (r_events r).
-Proof.
+Proof using HB HC.
   intros s p nf rid i t I Hin Hro Hr. pose proof I as (Hl & Hi).
   edestruct (step_of_returns fx s (Recv p false nf (MReqRoster rid))) as (m' & E & Hx & Hq); [exact I| |].
   { cbn [run_op process touches]. apply handle_request_roster_returns; [exact Hl|reflexivity|left; apply HC]. }
@@ -1537,7 +1541,7 @@ Theorem serves_protocol_message : forall s p nf from k t f,
   will_deliver s t (mkP p from k BPing) f ->
   let r := step fx s (Recv p false nf (MProto from (Some k) BPing)) in
   r_out r = Ok /\ In (EDeliver k (tk_node f)) (r_events r).
-Proof.
+Proof using HB HC.
   intros s p nf from k t f I Ht W. pose proof I as (Hl & Hi).
   edestruct (step_of_returns fx s (Recv p false nf (MProto from (Some k) BPing))) as (m' & E & Hx & Hq); [exact I| |].
   { cbn [run_op process touches]. apply transmit_returns; [repeat split; assumption|discriminate]. }
@@ -1557,7 +1561,7 @@ Theorem asks_sender_for_tree : forall s p nf from k b,
   In (ESend p (RReqTree (tk_tree k))) (r_events r) /\
   In (mkP p from k b) (parked (r_state r)) /\
   exists asked', lookup (tk_tree k) (store (r_state r)) = Some (Req asked').
-Proof.
+Proof using HB HC.
   intros s p nf from k b H71 I Hb Hr Hs. pose proof I as (Hl & Hi).
   edestruct (step_of_returns fx s (Recv p false nf (MProto from (Some k) b))) as (m' & E & Hx & Hq); [exact I| |].
   { cbn [run_op process touches].
@@ -1582,7 +1586,7 @@ Theorem serves_after_tree_arrives : forall s p nf tm ro t pm f asked,
   r_out r = Ok /\
   lookup (t_id t) (store (r_state r)) = Some (Have t) /\
   In (EDeliver (p_to pm) (tk_node f)) (r_events r).
-Proof.
+Proof using HB HC.
   intros s p nf tm ro t pm f asked I Hz Hm Hreq Hf W. pose proof I as (Hl & Hi).
   edestruct (step_of_returns fx s (Recv p false nf (MRespTree (Some tm) (Some ro)))) as (m' & E & Hx & Hq); [exact I| |].
   { cbn [run_op process touches].
@@ -1607,10 +1611,6 @@ Definition kx (tree round : nat) : token := mkTok 1 tree 1 0 round 4.
 Definition kfrom (tree round node : nat) : token := mkTok 1 tree 1 0 round node.
 Definition ping (p tree round from : nat) : op :=
   Recv p false false (MProto (Some (kfrom tree round from)) (Some (kx tree round)) BPing).
-
-Definition only (f : nat) : fixes :=   (* every repair but one *)
-  mkFixes (negb (f =? 5)) (negb (f =? 6)) (negb (f =? 7)) (negb (f =? 8)) (negb (f =? 26))
-          (negb (f =? 70)) (negb (f =? 71)) (negb (f =? 72)).
 
 Definition outs (fx : fixes) (ops : list op) : list outcome := map r_out (trace fx init ops).
 
